@@ -110,6 +110,10 @@ pub fn run_trace(args: &Args) -> Report {
                 let d = inputs[0].clone();
                 inputs.push(d);
             }
+            // a corner project may fix its inputs
+            if let Some(t) = p.sig.iter().find_map(|x| x.strip_prefix("inputs:")) {
+                inputs = t.split(',').map(|x| x.to_string()).collect();
+            }
             let cfg = RunCfg { mode, trailing: rng.chance(2, 3), recursive: false, threads: 1, inputs };
             let (before, _) = snapshot(&pdir);
             let req = encode_request(&before, &cfg, &p.cmds, &base_abs).replacen("project ", "trace ", 1);
